@@ -227,6 +227,22 @@ def gen(rng, tier):
             c["cluster"]["by_time"][tp] = None
         c["meta"]["notime"] = [list(tp) for tp in victims]
         cases.append(c)
+    # F: the coordinator is not ready when the consumer asks for the committed offsets (it answers 'offsets still loading' once or
+    #    twice, every entry with offset -1 as brokers do): creation retries and still starts at the committed offsets
+    for i in range(24 if tier == "quick" else 400):
+        parts = {}
+        for t in ((T1,) if i % 2 else (T1, T2)):
+            for p in range(rng.randint(1, 3)):
+                e = rng.choice([0, 5, 100])
+                l = e + rng.randint(2, 9)
+                parts[(t, p)] = (e, l, rng.randint(e + 1, l - 1))      # committed strictly inside the range: differs from every fallback
+        fb = ("earliest", "latest")[i % 2]
+        grp = ("kafka", "kafka", "zk")[i % 3]
+        nb = rng.randint(1, 2)
+        c = make_case(parts, _leaders(rng, parts, nb), nb, fb, grp, source="client" if i % 3 else "hosts",
+                      coord=rng.randint(1, nb), kind="coordinator_loading")
+        c["cluster"]["group_fetch_script"] = [14] * rng.choice([1, 1, 2])
+        cases.append(c)
     # the brokers may list topics and partitions in any order (every third case of the random families)
     orng = random.Random(rng.randint(0, 10 ** 9))
     for c in cases:
